@@ -111,7 +111,7 @@ def aliasing_of(t):
 def op_context(case, step):
     """the operation a judge finding at `step` is about: for eq / eqres directives the nearest preceding op / qry line"""
     i = min(step, len(case) - 1)
-    while i > 0 and case[i].split(" ")[0] in ("eq", "eqres", "note"):
+    while i > 0 and case[i].split(" ")[0] in ("eq", "eqres", "eqres3", "note"):
         i -= 1
     return case[i]
 
@@ -163,6 +163,9 @@ def run(chk):
                 "objects (tools/gen_alias.py) with copy construction, destruction, assignment, swap, SELF-assignment, SELF-swap, unary mutators, observers "
                 "called on the object itself (they move the lazy state) and EVERY binary/ternary operation and binary query run as a pair: once as chosen "
                 "(receiver/argument/system-argument coinciding in every pattern x=y, x=z, y=z, x=y=z, or distinct) and once on fresh copies of every operand; "
+                "for powersets the operands are first made to SHARE Determinate representations by every route (self, copy ctor, operator=, swap back and forth, "
+                "upper_bound_assign / least_upper_bound_assign, add_disjunct of the other's disjunct) and every disjunct-wise or collection-level operation and query is run a "
+                "THIRD time on deep, unshared rebuilds of both operands (each disjunct rebuilt from its constraints): call as chosen = call on copies = call on rebuilds; "
                 "after EVERY command every pool object is re-read through a fresh copy and compared AS A SET with what it denoted before (verified equiv_sys / "
                 "cover_equiv / gens_equiv; identical text is accepted without the oracle); distinct non-trivial = distinct (domain, operation, aliasing pattern) "
                 "triples exercised plus distinct (domain, status-flag vector) pairs reached")
@@ -213,7 +216,7 @@ def run(chk):
         dom = c[0].split(" ")[2]
         for l in c[1:]:
             t = l.split(" ")
-            if t[0] in ("op", "qry") and t[1] not in ("10", "11", "12"):
+            if t[0] in ("op", "qry") and t[1] not in ("10", "11", "12", "20", "21", "22"):
                 key = "%s:%s:%s" % (dom, t[2], aliasing_of(t))
                 pats[key] += 1
                 chk.nontrivial.add(key)
@@ -253,7 +256,7 @@ def run(chk):
         dom = case[0].split(" ")[2]
         t = cmd.split(" ")
         twin_ok = False
-        if t[0] in ("op", "qry") and len(t) > 3 and t[1] not in ("10", "11", "12") and prev:
+        if t[0] in ("op", "qry") and len(t) > 3 and t[1] not in ("10", "11", "12", "20", "21", "22") and prev:
             pt = prev[-1].split(" ")
             twin_ok = (pt[0] == t[0] and pt[1] == "10" and pt[2] == t[2])
         lifecycle = t[0] in ("copy", "del", "obs") or (t[0] == "op" and t[2] in ("assign", "swap", "std_swap"))
